@@ -24,6 +24,21 @@ def enc(s):
     return "".join(enc_char(c) for c in s)
 
 
+def dec(s):
+    """Inverse of enc()."""
+    out = []
+    i = 0
+    while i < len(s):
+        if s[i] == "~" and s[i + 1:i + 2] == "u" and ";" in s[i:]:
+            j = s.index(";", i)
+            out.append(chr(int(s[i + 2:j], 16)))
+            i = j + 1
+        else:
+            out.append(s[i])
+            i += 1
+    return "".join(out)
+
+
 def ext_tables(chars):
     """Environment tables for the non-ASCII / control characters that occur:
     what str.lower() and str.isspace() say about each of them (asked of Python
